@@ -1,6 +1,7 @@
 (* AccessTable.v — the access table the data-race theorem is about, with the roles of the functions,
    the per-thread fields and the one pair discharged by a state argument (definitions only).
-   The rows are what the translator extracts from the tree's sources (Properties_C15 checks
+   The rows are what the translator extracts from the tree's sources (helper functions such as
+   Resource::enqueue / select are inlined into the entry points that call them) (Properties_C15 checks
    that they still are, by evaluation); they are kept here so that the theorem has a fixed object. *)
 From Coq Require Import List String Bool.
 From Tulz Require Import RaceModel.
@@ -8,24 +9,22 @@ Import ListNotations.
 Local Open Scope string_scope.
 
 Definition expected_accesses : list access :=
-[mkAcc "Resource" "Resource::enqueue" "m_idCounter" false false [("m_mutex", Excl)];
- mkAcc "Resource" "Resource::enqueue" "m_queue" false false [("m_mutex", Excl)];
- mkAcc "Resource" "Resource::enqueue" "m_queue" true false [("m_mutex", Excl)];
- mkAcc "Resource" "Resource::lock" "m_activeCount" true false [("m_mutex", Excl)];
+[mkAcc "Resource" "Resource::lock" "m_activeCount" true false [("m_mutex", Excl)];
  mkAcc "Resource" "Resource::lock" "m_activeOp" false false [("m_mutex", Excl)];
  mkAcc "Resource" "Resource::lock" "m_activeOp" true false [("m_mutex", Excl)];
+ mkAcc "Resource" "Resource::lock" "m_idCounter" false false [("m_mutex", Excl)];
  mkAcc "Resource" "Resource::lock" "m_idCounter" true false [("m_mutex", Excl)];
  mkAcc "Resource" "Resource::lock" "m_queue" false false [("m_mutex", Excl)];
+ mkAcc "Resource" "Resource::lock" "m_queue" true false [("m_mutex", Excl)];
  mkAcc "Resource" "Resource::lock" "m_upperUnlockBound" false false [("m_mutex", Excl)];
- mkAcc "Resource" "Resource::select" "m_activeCount" true false [("m_mutex", Excl)];
- mkAcc "Resource" "Resource::select" "m_activeOp" true false [("m_mutex", Excl)];
- mkAcc "Resource" "Resource::select" "m_idCounter" true false [("m_mutex", Excl)];
- mkAcc "Resource" "Resource::select" "m_queue" false false [("m_mutex", Excl)];
- mkAcc "Resource" "Resource::select" "m_queue" true false [("m_mutex", Excl)];
- mkAcc "Resource" "Resource::select" "m_upperUnlockBound" false false [("m_mutex", Excl)];
- mkAcc "Resource" "Resource::select" "m_upperUnlockBound" true false [("m_mutex", Excl)];
  mkAcc "Resource" "Resource::unlock" "m_activeCount" true false [("m_mutex", Excl)];
  mkAcc "Resource" "Resource::unlock" "m_activeOp" false false [("m_mutex", Excl)];
+ mkAcc "Resource" "Resource::unlock" "m_activeOp" true false [("m_mutex", Excl)];
+ mkAcc "Resource" "Resource::unlock" "m_idCounter" true false [("m_mutex", Excl)];
+ mkAcc "Resource" "Resource::unlock" "m_queue" false false [("m_mutex", Excl)];
+ mkAcc "Resource" "Resource::unlock" "m_queue" true false [("m_mutex", Excl)];
+ mkAcc "Resource" "Resource::unlock" "m_upperUnlockBound" false false [("m_mutex", Excl)];
+ mkAcc "Resource" "Resource::unlock" "m_upperUnlockBound" true false [("m_mutex", Excl)];
  mkAcc "Router" "ConcurrentInvoker::unsubscribe" "m_router" true false [("m_resource", Excl)];
  mkAcc "Router" "ConcurrentSubjectRouter::depth" "m_router" false false [("m_resource", Shared)];
  mkAcc "Router" "ConcurrentSubjectRouter::exists" "m_router" false false [("m_resource", Shared)];
